@@ -879,8 +879,10 @@ Examples:
     >>> print(replace_variables(equation,vars))
     $4 = ma$1($2,$1) + $1
     ''' #FIXME: don't parse if __name__ in builtins, globals, or locals?
-    for i in indices: #FIXME: or better, use 're' pattern matching
-        constraints = constraints.replace(variables[i], marker + str(i))
+    import re
+    for i in indices: # only replace whole names (e.g. not the 'a' in 'abs')
+        pattern = r'(?<![\w.])' + re.escape(variables[i]) + r'(?!\w)'
+        constraints = re.sub(pattern, lambda m: marker + str(i), constraints)
     return constraints.replace(marker, markers)
 
 
